@@ -37,7 +37,8 @@ def examples(tier):
 @st.composite
 def strategy(draw, tier="quick"):
     regime = draw(st.sampled_from(["FLOAT", "FLOAT", "FLOAT", "BOOL", "QQ", "FREE", "MT"]))
-    g = draw(gen.grammar(regimes=[regime], **gen.size(tier)))
+    # a third of the cases use PCFG-style weights (per-head sums exactly one), the library's main use
+    g = draw(gen.grammar(regimes=[regime], weight_style=draw(st.sampled_from([None, None, 6])), **gen.size(tier)))
     # the end-of-sequence symbol is an argument of add_EOS: default, or a caller-chosen one
     eos = draw(st.sampled_from([None, None, "$", "</s>", 7, ["eos", 1]]))
     return {"g": g, "perm": draw(st.sampled_from([0, 2, "rev"])), "eos": eos}
